@@ -137,7 +137,7 @@ PROPS = {
         "rule": "1-5 trials x 1-8 generations, per trial a solved generation or none, fault none/error/cancel at a generated point, observer present 3/4, Trials nil or pre-sized, sequential or parallel executor, population 3-8; "
                 "non-trivial = a trial solved before its last generation or a fault after a completed trial; distinct by the whole scenario tuple",
         "assumptions": ["after a fault only 'no further evaluation, no repeated notification, fault returned' is required; a cancellation in the very last planned generation may return nil"],
-        "expect_classes": {"protocol": ["fault:none", "fault:error", "fault:cancel", "with observer", "without observer", "parallel executor", "trial solved before the last generation", "fault after a completed trial"]},
+        "expect_classes": {"protocol": ["fault:none", "fault:error", "fault:cancel", "evaluator error kind:canceled", "evaluator error kind:deadline", "with observer", "without observer", "parallel executor", "trial solved before the last generation", "fault after a completed trial"]},
     },
     "C01": {
         "run": "^TestC01",
